@@ -286,7 +286,7 @@ func c07Run(c *Case) {
 func init() {
 	register(&Prop{
 		ID: "C07", Level: "exploration",
-		Rule: "enumerated: 5 signals (break continue return next exit) x 5 loop kinds x {inner, outer loop of a 2-nest} x {before, after the trace print} x 3 guard positions, inside a function called from the first of two pattern rules over a 2-element input; 300 object-order cases (2-12 keys: every key once, identical order in two iterations and 8 runs); sampled: structured programs (if/else incl. brace-less and dangling else, while, 3-clause for, for-in over arrays/strings/objects, nesting <= 5, guarded signals, functions) whose stdout trace is compared line by line with the reference model. Non-trivial = trace of >= 5 lines and at least one signal executed (counted in the model's execution); distinct by program text.",
+		Rule:          "enumerated: 5 signals (break continue return next exit) x 5 loop kinds x {inner, outer loop of a 2-nest} x {before, after the trace print} x 3 guard positions, inside a function called from the first of two pattern rules over a 2-element input; 300 object-order cases (2-12 keys: every key once, identical order in two iterations and 8 runs); sampled: structured programs (if/else incl. brace-less and dangling else, while, 3-clause for, for-in over arrays/strings/objects, nesting <= 5, guarded signals, functions) whose stdout trace is compared line by line with the reference model. Non-trivial = trace of >= 5 lines and at least one signal executed (counted in the model's execution); distinct by program text.",
 		NumCases:      c07Cases,
 		Run:           c07Run,
 		MinConclusive: func(tier string) int { return 3000 },
